@@ -263,3 +263,20 @@ Definition validate_strict (cfg : config) : verdict := strict_aux [] (items cfg)
 
 Definition range_ok (r : vrange) : bool :=
   match parse_vlan_range (fst r), parse_cvlan (snd r) with Some _, Some _ => true | _, _ => false end.
+
+(* ---- reporting policy is free ----
+   The property constrains only WHETHER a configuration is rejected.  [validate_strict] stops at the first defect in
+   walk order (HEAD's policy); a validator may just as well collect every defect (every unparseable string, every
+   claim on a key that already has an owner, the first claimant staying the owner) and reject iff the collection is
+   non-empty.  Proofs.problems_nil_iff shows both policies reject exactly the same configurations. *)
+Fixpoint problems_aux (seen : list claim) (its : list item) : list verdict :=
+  match its with
+  | [] => []
+  | IBad n i w :: rest => VMalformed n i w :: problems_aux seen rest
+  | IClaim c :: rest =>
+      match find (key_eqb (c_svlan c) (c_sel c)) seen with
+      | Some p => VCollision (c_svlan c) (c_sel c) (c_name p) (c_name c) :: problems_aux seen rest
+      | None => problems_aux (c :: seen) rest
+      end
+  end.
+Definition all_problems (cfg : config) : list verdict := problems_aux [] (items cfg).
